@@ -55,7 +55,7 @@ func init() {
 				if t == rig.Thorough {
 					return nl * 40
 				}
-				return nl * 6
+				return nl * 12
 			},
 			Run:   c02Case,
 			Procs: 2,
